@@ -700,6 +700,11 @@ class LMDBStorage(BaseStorage):
             # the index keys hold both as 4 bytes; the writer thread could not
             # store the event after it has been acknowledged
             raise StorageError("invalid: created_at and kind must fit in 32 bits")
+        try:
+            encode_event(event)
+        except Exception:
+            # e.g. an integer in a tag that msgpack cannot represent
+            raise StorageError("invalid: event cannot be stored")
 
         if not event.is_ephemeral:
             self.writer_queue.put(("add", [event]))
